@@ -372,7 +372,7 @@ def known_findings():
 
 
 def write_replay(pid, n, payload):
-    d = os.path.join(ROOT, "replays", pid)
+    d = os.path.join(ROOT, "replays", pid) if os.path.realpath(REPO) == "/repo" else os.path.join(CACHE, "alt-replays", pid)
     os.makedirs(d, exist_ok=True)
     p = os.path.join(d, f"{n}.json")
     with open(p, "w") as fh:
@@ -437,8 +437,10 @@ def tu_of_line(per_tu, kind, text):
 def check(pid, tier, seed):
     t_start = time.time()
     mod = load_prop(pid)
-    os.makedirs(os.path.join(ROOT, "evidence"), exist_ok=True)
-    evidence_path = os.path.join(ROOT, "evidence", pid + ".json")
+    # runs against a scratch copy of the repository (mutation experiments) keep their own evidence
+    ev_dir = os.path.join(ROOT, "evidence") if os.path.realpath(REPO) == "/repo" else os.path.join(CACHE, "alt-evidence")
+    os.makedirs(ev_dir, exist_ok=True)
+    evidence_path = os.path.join(ev_dir, pid + ".json")
     violations = []   # (summary, payload)
     known_lines = []
 
